@@ -70,7 +70,7 @@ func generate(seed uint64, prop string) simrt.Case {
 	r := simrt.NewRand(seed)
 	cfg := config{Seed: seed, Replicas: 3 + r.Intn(3), Accounts: 2 + r.Intn(3), PartSize: []int{256, 4096, 65536}[r.Intn(3)]}
 	nblocks := 3 + r.Intn(7)
-	adminProfile := prop == "C14" || prop == "C20"
+	adminProfile := prop == "C14" || prop == "C20" || (prop == "C13" && r.Chance(1, 2))
 	if adminProfile {
 		nv := 1 + r.Intn(4)
 		for i := 0; i < nv; i++ {
@@ -127,6 +127,9 @@ func generate(seed uint64, prop string) simrt.Case {
 			ntx++
 		}
 		acts = append(acts, simrt.Action{K: "block"})
+	}
+	if prop == "C13" {
+		acts = append(acts, simrt.Action{K: "sync", A: int64(r.Intn(1 << 16)), B: int64(r.Intn(1 << 16))})
 	}
 	if prop == "C06" {
 		acts = append(acts, simrt.Action{K: "enumerate", A: int64(2 + r.Intn(nblocks-2)), B: int64(r.Intn(1 << 16))})
@@ -196,6 +199,7 @@ type world struct {
 	caRef          map[string]bool         // reference: which members are certificate authorities
 	refuseRef      map[string]bool         // reference refuse list (public key bytes)
 	removedKeys    []string                // addresses of validators that were removed at some point
+	valHist        map[int64]map[string]int64 // reference validator set in force after block h
 	adminLog       []adminRec
 	pendingTargets map[string]bool
 	pendingRemoved int64
@@ -562,7 +566,7 @@ func run(t *testing.T, prop string, c simrt.Case, out *simrt.Outcome, lg *simrt.
 	w.initValidators()
 	w.pendingTargets = map[string]bool{}
 	gen := &types.GenesisDoc{GenesisTime: w.start, ChainID: fullnode.ChainID, Validators: w.genesisValidators()}
-	w.env = &fullnode.Env{Reg: w.reg, Genesis: gen, BlockPartSize: cfg.PartSize, Plugins: "adminOp", BlockSize: cfg.BlockSize, AuthByCA: true}
+	w.env = &fullnode.Env{Reg: w.reg, Genesis: gen, BlockPartSize: cfg.PartSize, Plugins: "adminOp", BlockSize: cfg.BlockSize, AuthByCA: prop != "C13"}
 	for i := 0; i < cfg.Accounts; i++ {
 		h := sha256.Sum256([]byte(fmt.Sprintf("execsim-acct-%d-%d", cfg.Seed, i)))
 		k, err := ethcrypto.ToECDSA(h[:])
@@ -662,6 +666,14 @@ func run(t *testing.T, prop string, c simrt.Case, out *simrt.Outcome, lg *simrt.
 			}
 		}
 		w.refApply(preVals, authorised)
+		if w.valHist == nil {
+			w.valHist = map[int64]map[string]int64{}
+		}
+		vh := map[string]int64{}
+		for k, v := range w.valRef {
+			vh[k] = v
+		}
+		w.valHist[h] = vh
 		w.pendingTargets, w.pendingRemoved = map[string]bool{}, 0
 		queried := w.queried
 		w.queried = nil
@@ -850,6 +862,8 @@ func run(t *testing.T, prop string, c simrt.Case, out *simrt.Outcome, lg *simrt.
 			if a.N > 0 && a.N < len(w.reps) {
 				w.armed[a.N] = a.A
 			}
+		case "sync":
+			w.syncRun(a)
 		case "admit":
 			w.admit(a)
 		case "adminquery":
